@@ -440,7 +440,8 @@ impl PushPromise {
             src.advance(1);
         }
 
-        if src.len() < 5 {
+        // The promised stream ID; the header block fragment may be empty.
+        if src.len() < 4 {
             return Err(Error::MalformedMessage);
         }
 
